@@ -92,6 +92,17 @@ def headCall (c : Cfg) (now : Int) (subj : Option H) (ansInit ansTrusted : PeerA
           else if h.height ≤ s.height then { result := some s, subj := some s, reqs := [.trusted s.height] }
           else { result := some h, subj := some h, reqs := [.trusted s.height] }
 
+/-- A stale-head call whose network request is IN FLIGHT while the subjective head moves from `s0` (the snapshot
+    the request was issued with) to `s1` (gossip; `s1 = s0` if nothing happened).  `networkHead` reports the
+    current subjective head when the request fails or brings nothing new (`latestSubjective`), and `Head()` itself
+    returns the local head after adopting a newer answer. -/
+def headCallInflight (s0 s1 : H) (ans : PeerAns) : H :=
+  let latest := if s1.height > s0.height then s1 else s0
+  match ans with
+  | .fail => latest
+  | .ok h => if h.height ≤ s0.height then latest else if h.height > s1.height then h else s1
+  | .soft h bifOk => if !bifOk || h.height ≤ s0.height then latest else if h.height > s1.height then h else s1
+
 /-! ### single-flight wrapper (`syncHead.Head`) -/
 
 /-- callers are numbered; an event is a caller entering (`enter`) or the in-flight request finishing -/
